@@ -72,7 +72,7 @@ theorem ext_markDying (t : St) (a : Nat) : Ext t (markDying t a) := by
 theorem ext_answerTarget (t : St) (a : Nat) : Ext t (answerTarget t a).1 := by
   unfold answerTarget; (repeat' split)
   · exact Ext.refl t
-  · exact ext_markDying _ _
+  · exact ext_markDying t a
   · exact Ext.refl t
   · exact Ext.refl t
 theorem ext_deliver (t : St) (a : Nat) (r : Ans) (k : Nat) : Ext t (deliver t a r k) :=
